@@ -1,6 +1,7 @@
 package main
 
 import (
+	"go/token"
 	"go/types"
 
 	"golang.org/x/tools/go/ssa"
@@ -73,4 +74,33 @@ func (fc *FnCtx) noteTypes(f *ssa.Function) {
 			}
 		}
 	}
+}
+
+// rangeIntBound recognises the counter of `for i := range n` (go/ssa builds it as a rotated
+// loop: header phi "rangeint.iter", test `iter+1 < n` at the end of the body) and returns n
+// when it is defined outside the loop.
+func rangeIntBound(li *loopInfo, phi *ssa.Phi) ssa.Value {
+	if phi.Comment != "rangeint.iter" {
+		return nil
+	}
+	for b := range li.body {
+		for _, in := range b.Instrs {
+			cmp, ok := in.(*ssa.BinOp)
+			if !ok || cmp.Op != token.LSS {
+				continue
+			}
+			inc, ok := cmp.X.(*ssa.BinOp)
+			if !ok || inc.Op != token.ADD || inc.X != ssa.Value(phi) {
+				continue
+			}
+			if c, ok := inc.Y.(*ssa.Const); !ok || c.Value == nil || c.Value.ExactString() != "1" {
+				continue
+			}
+			if d, ok := cmp.Y.(ssa.Instruction); ok && li.body[d.Block()] {
+				continue // bound computed inside the loop
+			}
+			return cmp.Y
+		}
+	}
+	return nil
 }
